@@ -17,6 +17,7 @@ import (
 var exploreFlag = flag.Bool("explore", false, "developer mode: interpreter vs toolchain only, statistics per form")
 var formsFlag = flag.String("forms", "", "developer mode: comma separated forms")
 var showFlag = flag.Int("show", 3, "developer mode: disagreements shown per form")
+var showClassFlag = flag.String("showclass", "", "developer mode: also show the inputs of this class on which the interpreter differs from the toolchain")
 
 func runAllImpl(progs []Prog) []implT {
 	out := make([]implT, len(progs))
@@ -121,7 +122,7 @@ func explore(run *common.Run) {
 		if gbad {
 			s.gm++
 		}
-		if (ybad || gbad || unl) && shown[p.Form] < *showFlag {
+		if (ybad || gbad || unl || (differ && *showClassFlag != "" && ans["class"] == *showClassFlag)) && shown[p.Form] < *showFlag {
 			shown[p.Form]++
 			fmt.Printf("=========== %s  ybad=%v gbad=%v unlisted=%v\n%s\n--- impl: %s   (%s)\n--- y:    %s\n--- ref:  %s   (%s)\n--- g:    %s\n--- class %s\n", p.Form, ybad, gbad, unl, p.source(), impls[i].Out, impls[i].Err, ans["y"], refs[i].Out, refs[i].Err, ans["g"], ans["class"])
 			if ans["y"] == "" {
